@@ -369,3 +369,41 @@ fn ki8_reset_forgets_header_window_bits() {
     core::mem::forget(stream);
     core::mem::forget(state);
 }
+
+/// inflateCopy duplicates the 32 KiB + 64 window that inflateInit allocates.  A stream set up by inflateBackInit borrows the
+/// caller's window (as small as 256 bytes) instead; copying it must be refused (zlib: Z_STREAM_ERROR) rather than read
+/// 32 KiB + 64 bytes from that buffer (C02: nothing outside the caller's buffers is read; C14/C16: documented status).
+#[kani::proof]
+#[kani::unwind(8)]
+#[kani::stub(core::fmt::write, stub_fmt_write)]
+#[kani::stub(core::panicking::panic_nounwind, stub_pn)]
+#[kani::stub(core::panicking::panic_nounwind_fmt, stub_pnf)]
+fn ki8_copy_refuses_a_borrowed_window() {
+    let mut user_window = [0u8; 512]; // as passed to inflateBackInit(strm, 9, window)
+    let mut state = State::new(&[], Writer::new(&mut []));
+    state.window = unsafe { Window::from_raw_parts(user_window.as_mut_ptr(), 512) };
+    state.wbits = 9;
+    state.mode = Mode::Type;
+    // inflateBackInit records the same allocation size as inflateInit does
+    state.total_allocation_size = InflateAllocOffsets::new().total_size;
+    let mut ctx = IArenaCtx { arena: [0u8; 192], freed: 0, free_calls: 0 };
+    let mut source = typed_stream(unsafe { &mut *(&mut state as *mut State) });
+    source.alloc = Allocator {
+        zalloc: iza_arena,
+        zfree: izf_arena,
+        opaque: &mut ctx as *mut IArenaCtx as *mut core::ffi::c_void,
+        _marker: core::marker::PhantomData,
+    };
+    let mut out = [0u8; 4];
+    let input = [0u8; 4];
+    source.next_out = out.as_mut_ptr();
+    source.avail_out = 4;
+    source.next_in = input.as_ptr() as *mut u8;
+    source.avail_in = 4;
+    let mut dest = core::mem::MaybeUninit::<InflateStream>::uninit();
+    let rc = unsafe { copy(&mut dest, &source) };
+    assert!(rc == ReturnCode::StreamError, "a stream that borrows the caller's window cannot be copied");
+    assert!(ctx.free_calls == 0);
+    core::mem::forget(source);
+    core::mem::forget(state);
+}
